@@ -14,6 +14,8 @@ pub(crate) struct XmlSerializer<'a, N: Normalizer> {
     fullname_serializer: FullnameSerializer<'a>,
     normalizer: N,
     parameters: TokenSerializeParameters,
+    // elements for which we had to write an extra xmlns="" (see StartTagOpen)
+    undeclared_default: Vec<Node>,
 }
 
 impl<'a, N: Normalizer> XmlSerializer<'a, N> {
@@ -30,6 +32,7 @@ impl<'a, N: Normalizer> XmlSerializer<'a, N> {
             fullname_serializer,
             normalizer,
             parameters,
+            undeclared_default: Vec::new(),
         }
     }
 
@@ -89,13 +92,35 @@ impl<'a, N: Normalizer> XmlSerializer<'a, N> {
             StartTagOpen(element) => {
                 self.fullname_serializer
                     .push(self.xot.namespace_declarations(node));
-                OutputToken {
-                    space: false,
-                    text: format!(
-                        "<{}",
-                        self.fullname_serializer.element_fullname(element.name_id)?
-                    ),
+                let mut text = format!(
+                    "<{}",
+                    self.fullname_serializer.element_fullname(element.name_id)?
+                );
+                // An element in no namespace is written without prefix, but
+                // in the scope of a default namespace an unprefixed name
+                // means a name in that namespace. Undeclare the default
+                // namespace for this element (this can happen if the element
+                // was created in or moved into such a scope).
+                if self.xot.namespace_for_name(element.name_id) == self.xot.no_namespace()
+                    && self.fullname_serializer.has_default_namespace()
+                {
+                    if self
+                        .xot
+                        .namespaces(node)
+                        .contains_key(self.xot.empty_prefix())
+                    {
+                        // the element itself declares the default namespace:
+                        // there is no way to write this down
+                        return Err(Error::InvalidOperation(
+                            "Element in no namespace declares a default namespace".to_string(),
+                        ));
+                    }
+                    self.fullname_serializer
+                        .push(vec![(self.xot.empty_prefix(), self.xot.no_namespace())]);
+                    self.undeclared_default.push(node);
+                    text.push_str(" xmlns=\"\"");
                 }
+                OutputToken { space: false, text }
             }
             StartTagClose => {
                 if self.xot.first_child(node).is_none() {
@@ -125,6 +150,10 @@ impl<'a, N: Normalizer> XmlSerializer<'a, N> {
                         text: "".to_string(),
                     }
                 };
+                if self.undeclared_default.last() == Some(&node) {
+                    self.undeclared_default.pop();
+                    self.fullname_serializer.pop(true);
+                }
                 self.fullname_serializer
                     .pop(self.xot.has_namespace_declarations(node));
                 r
